@@ -207,10 +207,10 @@ func (c *StructCodec) Read(data []byte, ptr unsafe.Pointer, wt plenccore.WireTyp
 				return 0, fmt.Errorf("varuint overflow reading field %d of %s", index, c.rtype.Name())
 			}
 			offset += n
-			fl = int(v) + offset
-			if fl > l {
-				return 0, fmt.Errorf("length %d of field %d of %s exceeds data length", fl, index, c.rtype.Name())
+			if v > uint64(l-offset) {
+				return 0, fmt.Errorf("length %d of field %d of %s exceeds data length", v, index, c.rtype.Name())
 			}
+			fl = int(v) + offset
 		}
 
 		d := c.fieldsByIndex[index]
